@@ -283,6 +283,23 @@ def run(ctx):
             for k in slots:
                 del a4["particle"][k]
             alias_check("candidate list expanded", a4)
+        # decay options spread over several mappings ([R, D, {a: 1}, {b: 2}], the YAML flow style "[R, D, a: 1, b: 2]") == one mapping
+        a6 = copy.deepcopy(card["config"])
+        n_split = 0
+        for mother, entries in a6["decay"].items():
+            ents = entries if isinstance(entries[0], list) else [entries]
+            for ent in ents:
+                opts_ = [x for x in ent if isinstance(x, dict)]
+                merged_ = {}
+                for o_ in opts_:
+                    merged_.update(o_)
+                # every decay gets an explicit (harmless) second option so that two mappings exist: has_barrier_factor True is the default
+                merged_.setdefault("has_barrier_factor", True)
+                if len(merged_) >= 2:
+                    ent[:] = [x for x in ent if not isinstance(x, dict)] + [{k_: v_} for k_, v_ in merged_.items()]
+                    n_split += 1
+        if n_split:
+            alias_check("decay options split over several mappings", a6)
         alias_check("key order / candidate order", permuted_config(card["config"], rng))
         # (e) export -> load
         for when in ("after get_amplitude",) + (("before get_amplitude",) if i % 4 == 0 else ()):
